@@ -337,14 +337,68 @@ func (t *table) clone() *table {
 func extStr(e string, t int) string { return fmt.Sprintf("%s#%d", e, t) }
 
 // project the real table over the whole name universe
-func (un *universe) project(s *linker.Symbols) *table {
+func (un *universe) project(s *linker.Symbols) *table { return un.projectIn(s, nil) }
+
+// scope: the names worth probing for a case (those of its files and their imports, plus a few names
+// nobody declares); nil = the whole universe
+type scope struct {
+	names  []string
+	extKey []extKey
+}
+
+func (un *universe) scopeOf(ids []string) *scope {
+	seen := map[string]bool{}
+	nameSet := map[string]bool{"zz": true, "p.zz": true}
+	extSet := map[extKey]bool{{"p.M", 99}: true}
+	var visit func(id string)
+	visit = func(id string) {
+		if seen[id] {
+			return
+		}
+		seen[id] = true
+		f := un.files[id]
+		for i := 1; i <= len(f.Pkg); i++ {
+			nameSet[dotted(f.Pkg[:i])] = true
+		}
+		for _, sy := range f.Syms {
+			nameSet[dotted(sy.N)] = true
+		}
+		for _, x := range f.Exts {
+			extSet[extKey{dotted(x.E), x.T}] = true
+			extSet[extKey{dotted(x.E), x.T + 50}] = true
+		}
+		for _, d := range f.Deps {
+			visit(d)
+		}
+	}
+	for _, id := range ids {
+		visit(id)
+	}
+	sc := &scope{}
+	for n := range nameSet {
+		sc.names = append(sc.names, n)
+	}
+	sort.Strings(sc.names)
+	for k := range extSet {
+		sc.extKey = append(sc.extKey, k)
+	}
+	return sc
+}
+
+func (un *universe) projectIn(s *linker.Symbols, sc *scope) *table {
+	hooksOff.Store(true)
+	defer hooksOff.Store(false)
 	t := newTable()
-	for _, n := range un.names {
+	names, extKeys := un.names, un.extKey
+	if sc != nil {
+		names, extKeys = sc.names, sc.extKey
+	}
+	for _, n := range names {
 		if sp := s.Lookup(protoreflect.FullName(n)); sp != nil {
 			t.Syms[n] = idOf(sp.Start().Filename)
 		}
 	}
-	for _, k := range un.extKey {
+	for _, k := range extKeys {
 		if sp := s.LookupExtension(protoreflect.FullName(k.E), protoreflect.FieldNumber(k.T)); sp != nil {
 			t.Exts[extStr(k.E, k.T)] = idOf(sp.Start().Filename)
 		}
